@@ -50,6 +50,12 @@ CHECKS = {
             "placed on the side whose size it has), that Product/Sum constructors and @ validate the contracted dimensions before building, and that the dtype of *Ms composites is a "
             "reduction over all parts.",
             "The value of the represented matrix and error messages are not decided; totality/unambiguity of the combinators is C04.", "4/C03"),
+    "C06": ("term rewriting of every inv / pinv rule against inv(A) under the operand kind's defining equation and the factorisation hypotheses; decision tables of the Auto rules",
+            "Decides the algebraic shape of every dispatch path of inv/pinv/solve: factorisation base cases (inv(H(L))*inv(L) for A = L*H(L); inv(U)*inv(L)*inv(P) for A = P*L*U), "
+            "structural rules (reversed product of inverses, factor-wise and NOT reversed for Kronecker/BlockDiag with multiplicities kept, reciprocal payloads, argsort permutation, "
+            "adjoint under the Unitary cond, triangular solve), forwarding of the algorithm argument, the lazy iterative inverse calling alg(A, X), and that Auto is exhaustive and "
+            "chooses PSD-only algorithms only where its guard implies PSD.",
+            "Residual sizes, tolerances, conditioning and the numerical effect of the 10^6 threshold are not decided. Dispatch of every (kind, algorithm) pair is C04; densification is C19.", "4/C06"),
 }
 
 NOT_APPLICABLE = {
